@@ -583,6 +583,11 @@ func (g *RGen) genAuthGrant() ROp {
 	grantee := g.user()
 	if g.chance(0.03) {
 		grantee = g.anyAddr()
+		// never a module account: x/authz refuses a grant to a blocked address only while that account does not exist yet, which
+		// depends on module-account creation outside the reward machine (SDK behaviour, outside the claim)
+		if grantee < 0 && grantee != rInvalidID {
+			grantee = g.user()
+		}
 	}
 	kind := int64(1 + g.r.Intn(3))
 	var limit int64
